@@ -123,7 +123,7 @@ inductive Payload
   | dns (name : String) (reply : Option (Option Nat))      -- `DNSPacket(dns_request=name, dns_reply = None | DNSReply(ip | None))`
   | ntp (reply : Option Nat)                               -- `NTPPacket(ntp_reply = None | NTPReply(datetime))`
   | httpReq (method : HttpMethod) (path : PathKind) (urlId : Nat)   -- `HttpRequestPacket(request_method, request_url)`
-  | httpResp (code : Option Nat)                           -- `HttpResponsePacket(status_code = None | code)`
+  | httpResp (code : Nat)                                  -- `HttpResponsePacket(status_code = code)` (every shipped sender sets one)
 deriving DecidableEq, Repr
 
 def Payload.isScan : Payload → Bool
@@ -143,10 +143,8 @@ inductive Data
   | dnsClient (cache : List (String × Nat)) (server : Option Nat)        -- dns_cache, config.dns_server
   | ntpServer
   | ntpClient (time : Option Nat) (server : Option Nat)                  -- time, config.ntp_server_ip
-  /-- `response_codes_this_timestep`; `db_connection` (cached connection: do its queries succeed); what the node's
-  database client would hand out now (`get_new_connection()`: None, or a connection whose queries answer `ok`) — the database
-  side is C17's subject and enters as this verdict -/
-  | webServer (codes : List (Option Nat)) (conn : Option Bool) (dbOffer : Option Bool)
+  /-- `response_codes_this_timestep`; `db_connection` (the cached connection: do its queries succeed) -/
+  | webServer (codes : List Nat) (conn : Option Bool)
   /-- `latest_response.status_code` (outer none: no response object yet), `history` as (url, outcome: LOADED code |
   SERVER_UNREACHABLE), `config.target_url` -/
   | webBrowser (latest : Option (Option Nat)) (history : List (Nat × Option (Option Nat))) (target : Option Nat)
@@ -183,15 +181,16 @@ def Data.receive (d : Data) (canAct : Bool) (now : Nat) (p : Payload) : Data × 
   | .ntpClient _ srv, .ntp (some t) => (.ntpClient (some t) srv, .t, [], p)
   | .ntpClient _ _, _ => (d, .f, [], p)
   -- the web classes need more than this signature offers (the node's software list, a health write): `Data.receiveH`
-  | .webServer _ _ _, _ => (d, .f, [], p)
+  | .webServer _ _, _ => (d, .f, [], p)
   | .webBrowser _ _ _, _ => (d, .f, [], p)
 
 /-- what `receive` does besides data / return value / sends / payload: a write of `health_state_actual` -/
 abbrev HealthWrite := Option Health
 
 /-- `WebServer._handle_get_request` + `_establish_db_connection`: status code, the connection cached afterwards, health write.
-`hasDbClient` = `software_manager.software.get("database-client")` is there. -/
-def webGet (path : PathKind) (conn dbOffer : Option Bool) (hasDbClient : Bool) : Nat × Option Bool × HealthWrite :=
+`db` = what the node's database client hands out now (`software.get("database-client")` there and `get_new_connection()` not
+None: a connection whose queries answer `ok`) — the database side is C17's subject and enters as this verdict. -/
+def webGet (path : PathKind) (conn db : Option Bool) : Nat × Option Bool × HealthWrite :=
   match path with
   | .root => (200, conn, none)
   | .other => (404, conn, none)
@@ -199,30 +198,28 @@ def webGet (path : PathKind) (conn dbOffer : Option Bool) (hasDbClient : Bool) :
     -- `_establish_db_connection`: a cached connection is reused; else the database client is asked for a new one
     let conn' : Option Bool := match conn with
       | some ok => some ok
-      | none => if hasDbClient then dbOffer else none
+      | none => db
     match conn' with
     | none => (500, none, none)
     | some true => (200, conn', some .good)          -- query succeeded: `set_health_state(GOOD)`
     | some false => (404, conn', some .compromised)  -- query failed: `set_health_state(COMPROMISED)`, status stays NOT_FOUND
 
-/-- `receive` of every modelled class (`Data.receive` for the DNS / NTP classes).  Additional input: is a database client
-installed on the node; additional output: the health write. -/
-def Data.receiveH (d : Data) (canAct : Bool) (now : Nat) (hasDbClient : Bool) (p : Payload) :
+/-- `receive` of every modelled class (`Data.receive` for the DNS / NTP classes).  Additional input: the database verdict
+(see `webGet`); additional output: the health write. -/
+def Data.receiveH (d : Data) (canAct : Bool) (now : Nat) (db : Option Bool) (p : Payload) :
     (Data × Ret × List (Dest × Payload) × Payload) × HealthWrite :=
   if !canAct then ((d, .f, [], p), none) else
   match d, p with
-  -- WebServer.receive → _process_http_request: GET is handled, POST gets an empty response (status None), any other method
-  -- 405; the response goes back along the session, its status is appended to `response_codes_this_timestep`; True iff 200
-  | .webServer codes conn offer, .httpReq .get path _ =>
-    let (code, conn', hw) := webGet path conn offer hasDbClient
-    ((.webServer (codes ++ [some code]) conn' offer, Ret.ofBool (code == 200), [(.session, .httpResp (some code))], p), hw)
-  | .webServer codes conn offer, .httpReq .post _ _ =>
-    ((.webServer (codes ++ [none]) conn offer, .f, [(.session, .httpResp none)], p), none)
-  | .webServer codes conn offer, .httpReq .other _ _ =>
-    ((.webServer (codes ++ [some 405]) conn offer, .f, [(.session, .httpResp (some 405))], p), none)
-  | .webServer _ _ _, _ => ((d, .f, [], p), none)
+  -- WebServer.receive → _process_http_request: GET is handled, POST and any other method get 405; the response goes back
+  -- along the session, its status is appended to `response_codes_this_timestep`; True iff 200
+  | .webServer codes conn, .httpReq .get path _ =>
+    let (code, conn', hw) := webGet path conn db
+    ((.webServer (codes ++ [code]) conn', Ret.ofBool (code == 200), [(.session, .httpResp code)], p), hw)
+  | .webServer codes conn, .httpReq _ _ _ =>     -- POST is not implemented: refused like any unsupported method
+    ((.webServer (codes ++ [405]) conn, .f, [(.session, .httpResp 405)], p), none)
+  | .webServer _ _, _ => ((d, .f, [], p), none)
   -- WebBrowser.receive: a response becomes `latest_response`
-  | .webBrowser _ hist tgt, .httpResp code => ((.webBrowser (some code) hist tgt, .t, [], p), none)
+  | .webBrowser _ hist tgt, .httpResp code => ((.webBrowser (some (some code)) hist tgt, .t, [], p), none)
   | .webBrowser _ _ _, _ => ((d, .f, [], p), none)
   | _, _ => (d.receive canAct now p, none)
 
@@ -232,7 +229,7 @@ def Data.init (cid : String) : Option Data :=
   else if cid = "DNSClient" then some (.dnsClient [] none)
   else if cid = "NTPServer" then some .ntpServer
   else if cid = "NTPClient" then some (.ntpClient none none)
-  else if cid = "WebServer" then some (.webServer [] none none)
+  else if cid = "WebServer" then some (.webServer [] none)
   else if cid = "WebBrowser" then some (.webBrowser none [] none)
   else none
 
@@ -259,6 +256,7 @@ structure NetNode where
   n : Node := {}
   data : List (Nat × Data) := []
   now : Nat := 0                 -- what `datetime.now()` reads (environment)
+  dbOffer : Option Bool := none  -- what `DatabaseClient.get_new_connection()` hands out on this node (environment, C17)
 deriving Repr
 
 /-- `set_health_state(h)` on object `u`: `health_state_actual := h`, nothing else -/
@@ -300,6 +298,9 @@ def step (nn : NetNode) (op : Op) : NetNode × Out :=
   let (n', o) := nn.n.step op
   (({ nn with n := n' } : NetNode).adopt, o)
 
+/-- what the web server's `_establish_db_connection` can get: a database client is installed and hands out a connection -/
+def dbVerdict (nn : NetNode) : Option Bool := if dhas "database-client" nn.n.software then nn.dbOffer else none
+
 /-- `software.receive(payload, session_id, …)` of object `u` for a payload that arrived on `(port, proto)`; the last
 component is the payload object afterwards -/
 def recvAt (nn : NetNode) (u port proto : Nat) (p : Payload) : NetNode × RecvRec × List Sent × Payload :=
@@ -307,7 +308,7 @@ def recvAt (nn : NetNode) (u port proto : Nat) (p : Payload) : NetNode × RecvRe
   match dget u nn.data with
   | none => (nn, { uid := u, handled := can, ret := none }, [], p)
   | some d =>
-    let ((d', r, out, p'), hw) := d.receiveH can nn.now (dhas "database-client" nn.n.software) p
+    let ((d', r, out, p'), hw) := d.receiveH can nn.now nn.dbVerdict p
     ({ nn with data := dset u d' nn.data, n := applyHealthWrite nn.n u hw },
      { uid := u, handled := can, ret := some r },
      out.map (fun (dst, q) => { src := u, dst := dst, port := port, proto := proto, payload := q }), p')
